@@ -453,6 +453,23 @@ def callee_bodies(fb, fn):
     return impls_of(fb, fn)
 
 
+def closure_args(fb, body, t):
+    """bodies of the closures handed to this call (by value or by reference), read off the argument types"""
+    out = []
+    for a in t.get('args') or []:
+        pl = a.get('p') if isinstance(a, dict) else None
+        if not pl or 'ty' not in pl:
+            continue
+        ty = body.ty(pl['ty'])
+        while ty.get('k') in ('ref', 'ptr') and 'inner' in ty:
+            ty = body.ty(ty['inner'])
+        if ty.get('k') == 'closure':
+            nb = fb.body(ty['def'])
+            if nb is not None:
+                out.append(nb)
+    return out
+
+
 def reaches_call(fb, body, pred, seen=None, depth=0):
     """does `body`, directly or through workspace callees (and closures), call something
     whose declared or resolved path satisfies pred?"""
@@ -469,6 +486,11 @@ def reaches_call(fb, body, pred, seen=None, depth=0):
         for nb in callee_bodies(fb, fn):
             if pred(nb.path) or reaches_call(fb, nb, pred, seen, depth + 1):
                 return True
+    # closures written in the body (run here, or handed to a helper / adaptor that runs them)
+    for d in body.closures_built():
+        nb = fb.body(d)
+        if nb is not None and reaches_call(fb, nb, pred, seen, depth + 1):
+            return True
     return False
 
 
@@ -484,6 +506,10 @@ def reachable_calls(fb, body, seen=None, depth=0, stop=None):
             continue
         yield body, bb, t, fn
         for nb in callee_bodies(fb, fn):
+            yield from reachable_calls(fb, nb, seen, depth + 1, stop)
+    for d in body.closures_built():
+        nb = fb.body(d)
+        if nb is not None:
             yield from reachable_calls(fb, nb, seen, depth + 1, stop)
 
 
